@@ -3,3 +3,4 @@ import Props.C17
 #print axioms Webauthn.Props.C17.window_real_time
 #print axioms Webauthn.Props.C17.wired
 #print axioms Webauthn.Props.C17.clock_per_call
+#print axioms Webauthn.Props.C17.timestamp_must_be_integer
